@@ -117,8 +117,8 @@ func newScn(name string, o Opt) *Scn {
 		cfg.RolesMax = 2
 		cfg.RoleLens = []int{15, 17, 22, 27}
 	}
-	small = o.Small
-	noCall = o.NoCall
+	small = o.Small || o.Wild // wild scenarios discard the typical arguments: build them in their smallest shape
+	noCall = o.NoCall || o.Wild
 	s := &Scn{Name: name, O: o, W: world.New(cfg)}
 	s.Roles = &world.RolesStub{W: s.W}
 	return s
@@ -178,38 +178,75 @@ func smallBytes(tag string) []byte {
 }
 
 // wildArgs builds an adversarial argument list for a role spec (one letter per position:
-// t token id, n number, a address, b other bytes): the count is arbitrary in 0..len(spec)+1 and
-// every length is drawn from the role's adversarial set (DESIGN.md C11).
+// t token id, n number, a address, b other bytes). Two sweeps (DESIGN.md C11):
+//   count sweep   - any count in 0..len(spec)+1, one-byte items (32-byte addresses);
+//   content sweep - the full count, every length drawn from the role's adversarial set
+//                   (numbers 0/1/8 bytes - so 2^64-1 and all residues of 3n+c are in range -
+//                   plus 2/9 bytes in the thorough tier; token ids 0/2; addresses 32/31).
 func wildArgs(spec string) [][]byte {
+	if i := indexByte(spec, '|'); i >= 0 {
+		if verif.Choose("wild.mode", 2) == 0 {
+			return wildCount(spec[:i])
+		}
+		return wildContent(spec[i+1:])
+	}
+	if verif.Choose("wild.mode", 2) == 0 {
+		return wildCount(spec)
+	}
+	return wildContent(spec)
+}
+
+func indexByte(s string, c byte) int {
+	for i := 0; i < len(s); i++ {
+		if s[i] == c {
+			return i
+		}
+	}
+	return -1
+}
+
+func wildCount(spec string) [][]byte {
 	n := verif.Choose("nargs", len(spec)+2)
 	args := make([][]byte, 0, n)
 	for i := 0; i < n; i++ {
-		role := byte('b')
-		if i < len(spec) {
-			role = spec[i]
+		if i < len(spec) && spec[i] == 'a' {
+			args = append(args, verif.Bytes("w.addr", 32))
+		} else {
+			args = append(args, verif.Bytes("w.b", 1))
 		}
+	}
+	return args
+}
+
+func wildContent(spec string) [][]byte {
+	args := make([][]byte, 0, len(spec))
+	for i := 0; i < len(spec); i++ {
 		var a []byte
-		switch role {
+		switch spec[i] {
 		case 't':
 			if verif.Thorough() {
 				a = verif.BytesLen("w.tok", 0, 3)
 			} else {
-				a = verif.BytesOf("w.tok", 0, 2)
+				a = verif.Bytes("w.tok", 2)
 			}
 		case 'n':
 			if verif.Thorough() {
-				a = verif.BytesOf("w.num", 0, 1, 2, 8, 9)
+				a = verif.BytesOf("w.num", 1, 0, 8, 2, 9)
 			} else {
-				a = verif.BytesOf("w.num", 0, 1, 8)
+				a = verif.BytesOf("w.num", 1, 0, 8)
 			}
 		case 'a':
 			if verif.Thorough() {
 				a = verif.BytesOf("w.addr", 32, 31, 33)
 			} else {
-				a = verif.BytesOf("w.addr", 32, 31)
+				a = verif.Bytes("w.addr", 32)
 			}
 		default:
-			a = verif.BytesOf("w.b", 0, 1)
+			if verif.Thorough() {
+				a = verif.BytesOf("w.b", 1, 0)
+			} else {
+				a = verif.Bytes("w.b", 1)
+			}
 		}
 		args = append(args, a)
 	}
@@ -325,7 +362,7 @@ func scnNFTCreate(o Opt) *Scn {
 	if !small && verif.Bool("two.uris") {
 		args = append(args, smallBytes("uri1"))
 	}
-	args = s.wild("tnbnbbb", args)
+	args = s.wild("tnbnbbbb|tnbnbbb", args)
 	s.selfCall(args)
 	g := s.prices()
 	s.Fn, _ = builtInFunctions.NewESDTNFTCreateFunc(g.BuiltInCost.ESDTNFTCreate, g.BaseOperationCost, s.W.Codec, s.W.Pause, s.rolesHandler())
@@ -732,7 +769,7 @@ func scnMultiTransfer(o Opt) *Scn {
 	}
 	if o.Wild {
 		s.DstAddr = nil
-		args = s.wild("antnntnn", args)
+		args = s.wild("antnntnn|antnn", args)
 	}
 	s.In = s.W.Input(s.Snd.Addr, s.Snd.Addr, args)
 	return s
